@@ -15,6 +15,11 @@ CHECKS = {
     note=BASE + "synthetic evaluation networks (the shipped one is emptied here); search internals not modelled; no 64-bit hash collisions; depth-limited searches are not run at reduced strength (they explode by design).",
     technique="Lean 4 proof (root bookkeeping invariants, PV acceptor) + audit of the real engine's UCI output by the Lean chess model over positions x limits x options",
     design="6/C03", category="proof"),
+ "C14": dict(
+    text="Lean theorems (Props/C14.lean) on the table model: the repaired clear() yields exactly a fresh table (slots, used size, generation) up to the contempt hash; the first search after Clear Hash runs with generation 1 like a fresh engine; witness that the pinned commit's clear() (generation kept) makes an insert/insert/probe history observable differently once the generation wraps to 0. Partial: determinism of the whole search and the other persistent state (history, killers, caches) are tied by the two-process comparison of complete UCI output, not proved.",
+    note=BASE + "determinism of the real search at Threads=1 is observed (fresh engine run twice); synthetic network; caches kept by Clear Hash assumed transparent (C07).",
+    technique="Lean 4 proof on the table model (clear = fresh; generation-zero witness) + two-process differential of complete search output after arbitrary prior sessions incl. generation-wrap lengths",
+    design="6/C14"),
  "C08": dict(
     text="Lean theorems (Props/C08.lean): bucket index aligned and in range for every size >= 512 and every 64-bit key; field layout disjoint and lossless; xor validation makes any validating pair of words bit-identical to one unit record (relaxed-atomic over-approximation); ply shift exact; hash buckets disjoint from the resident-tablebase bytes; insert writes only inside its bucket. The universally quantified part is proved; the tie to the C++ is a differential run.",
     note=BASE + "no 64-bit key/xor coincidences (explicit hypothesis); relaxed atomics modelled as 'a load returns some previously written value of that word'; harness reads private members.",
